@@ -91,6 +91,9 @@ pub struct Point {
     /// C15 extras
     pub bad_name: Option<String>,
     pub missing_dirs: bool,
+    /// creating the scratch file for the populate comparison fails (ENOENT:
+    /// its directory vanished), as does the fallback creation
+    pub fault_scratch: bool,
 }
 
 pub struct Swarm {
@@ -99,6 +102,8 @@ pub struct Swarm {
     pub judge_reads: usize,
     pub plen: [usize; 4],
     pub noise: bool,
+    /// the reader does not own the files: futimens fails with EPERM
+    pub futimens_eperm: bool,
 }
 
 #[derive(Clone, Debug, PartialEq)]
@@ -140,6 +145,7 @@ pub fn run_point(tape: &mut Tape, pt: &Point, detail: bool) -> MatReport {
         judge_reads: *tape.pick(&[0usize, 3, 1_000_000]),
         plen: [0, *tape.pick(&[5usize, 0, 40, 4097, 8192 * 2 + 5]), *tape.pick(&[6usize, 1, 41, 4095]), *tape.pick(&[7usize, 0, 8192])],
         noise: tape.draw(4) == 3,
+        futimens_eperm: tape.draw(4) == 3,
     };
     let nshards = 2 + tape.draw(3) as usize;
     let a = tape.draw(nshards as u64) as usize;
@@ -227,8 +233,30 @@ pub fn run_point(tape: &mut Tape, pt: &Point, detail: bool) -> MatReport {
         MOp::SetTemp => Op::SetTemp { tag: ptag, plen: pplen },
         MOp::PutTemp => Op::PutTemp { tag: ptag, plen: pplen },
     };
+    if sw.futimens_eperm || pt.fault_scratch {
+        let (fe, fs_) = (sw.futimens_eperm, pt.fault_scratch);
+        let mut scratch_failed = false;
+        w.sim.lock().injector = Some(Box::new(move |info, _t| {
+            if !info.lib {
+                return None;
+            }
+            if fe && info.kind == K::Futimens {
+                return Some(libc::EPERM);
+            }
+            if fs_ && info.kind == K::OpenTmp {
+                scratch_failed = true;
+                return Some(libc::ENOENT);
+            }
+            // the create+unlink fallback of tempfile() in the same directory
+            if fs_ && scratch_failed && info.kind == K::Open && info.arg & kismet_vfs::kernel::O_CREATE != 0 && info.arg & kismet_vfs::kernel::O_EXCL != 0 && info.raw.contains("/.tmp") && !info.raw.contains("/sim/app") {
+                return Some(libc::ENOENT);
+            }
+            None
+        }));
+    }
     let mark = w.trace_len();
     let res = w.op(0, 0, &handle, 0, &key, &op);
+    w.sim.lock().injector = None;
     w.leave();
     let trace = w.trace_from(mark);
     let after: Vec<_> = dirs.iter().map(|d| snapshot(&w, &d.path)).collect();
@@ -374,11 +402,34 @@ pub fn run_point(tape: &mut Tape, pt: &Point, detail: bool) -> MatReport {
         }
     }
 
+    // The scratch file is needed (a) for the populate comparison on an accepted
+    // or promoted hit when a checker is configured, and (b) on every miss or
+    // replacement when there is no write side.  If it cannot be created the
+    // call must fail: the failure is Kismet's, not the populate function's.
+    let mut exp = exp;
+    if pt.fault_scratch && pt.bad_name.is_none() {
+        if let MOp::Ensure | MOp::Gou(_) = pt.op {
+            let action = match pt.op {
+                MOp::Gou(a) => a,
+                _ => Action::Promote,
+            };
+            let copies_ok = !(has_checker && !all_equal);
+            let needed = match first {
+                Some(_) if action != Action::Replace => has_checker && copies_ok,
+                _ => !has_writer && copies_ok,
+            };
+            if needed {
+                exp = Exp::Err(None);
+                exp_pop_called = false;
+                exp_writer = if has_writer { content[0] } else { None };
+            }
+        }
+    }
     // ------------------------------------------------------------ judge
     let mut findings: Vec<MatFinding> = Vec::new();
     let desc = format!(
-        "writer={:?} readers={:?} content={:?} op={:?} populate={:?} checker={:?} bad_name={:?} missing_dirs={} umask={:o} auto_sync={} judge_reads={} shards={} [{}]",
-        pt.cfg.writer, pt.cfg.readers, pt.cfg.content, pt.op, pt.pop, pt.checker, pt.bad_name, pt.missing_dirs, sw.umask, sw.auto_sync, sw.judge_reads, nshards, kn.describe()
+        "writer={:?} readers={:?} content={:?} op={:?} populate={:?} checker={:?} bad_name={:?} missing_dirs={} fault_scratch={} futimens_eperm={} umask={:o} auto_sync={} judge_reads={} shards={} [{}]",
+        pt.cfg.writer, pt.cfg.readers, pt.cfg.content, pt.op, pt.pop, pt.checker, pt.bad_name, pt.missing_dirs, pt.fault_scratch, sw.futimens_eperm, sw.umask, sw.auto_sync, sw.judge_reads, nshards, kn.describe()
     );
     let mut fail = |prop: &'static str, class: &str, msg: String| {
         findings.push(MatFinding { prop, v: Violation::new(class, msg).attr("op", format!("{:?}", pt.op)) });
